@@ -217,6 +217,27 @@ def run_group(loop: steploop.StepLoop, name: str, stream: bytes, cfg: dict,
 
 
 # ------------------------------------------------------------------ judging
+# Rules of the reference for which the code is known to deviate (DESIGN section 5 item 18 and the
+# two fragmentation findings).  A failing trace is re-validated with these rules in deviation
+# mode; if it then passes it is reported under the rule's own clause name "Accepted:<rule>" so
+# that a known-findings entry can match exactly that and nothing else.
+DEVIATION_RULES = ["close-code-1006", "interleave-nonfin", "interleave-fin-empty"]
+
+
+def _report(ctx: Ctx, t: dict, clause: str, why: str, seg: str, pos: int, info: Any, devs_used: List[str]) -> None:
+    klass = t["name"].split(":")[-1] if ":" in t["name"] else t["name"]
+    sig = (f"{clause} rule={why or '-'} input={klass} compress={t['cfg']['compress']} "
+           f"max_msg_size={t['cfg']['max']}")
+    bad_ev = t["events"][pos] if pos < len(t["events"]) else {}
+    detail = {"name": t["name"], "cfg": {k: t["cfg"][k] for k in ("compress", "decode", "max")},
+              "stream": t["cfg"]["stream"], "segs": t["segs"], "failed_at_event": pos,
+              "segmentation": seg, "rule": why, "deviation_rules_met": devs_used,
+              "ref_codes": sorted(info[2]) if info and len(info) > 2 and not isinstance(info[2], (str, int)) else [],
+              "code_exc": info[3] if info and len(info) > 3 else None,
+              "event": {k: bad_ev.get(k) for k in ("n", "seg", "msgs", "exc", "retained")}}
+    ctx.violation(clause, sig, detail, "trace")
+
+
 def judge(ctx: Ctx, traces: List[dict], label: str) -> None:
     if not traces:
         return
@@ -224,26 +245,35 @@ def judge(ctx: Ctx, traces: List[dict], label: str) -> None:
     if res.violated:
         raise MachineryError(f"trace validation reported {res.violated}:\n" + "\n".join(res.output.splitlines()[-30:]))
     ctx.add_trace_batch(len(traces), res)
+    failing: List[Tuple[dict, Any]] = []
     for t, v in zip(traces, verdicts):
         ctx.evaluations += sum(1 for e in t["events"] if e["st"])
         ctx.distinct.add(hash((bytes(t["cfg"]["stream"]), t["cfg"]["compress"], t["cfg"]["decode"], t["cfg"]["max"])))
         if v.ok:
-            for d in (v.info or []):
+            for d in ((v.info or [[]])[0] or []):
                 ctx.drift(d[1])
-            continue
-        info = v.info or []
-        seg = info[0] if len(info) > 0 else "?"
-        why = info[1] if len(info) > 1 else ""
-        klass = t["name"].split(":")[-1] if ":" in t["name"] else t["name"]
-        sig = (f"{v.clause} rule={why or '-'} input={klass} compress={t['cfg']['compress']} "
-               f"max_msg_size={t['cfg']['max']}")
-        bad_ev = t["events"][v.pos] if v.pos < len(t["events"]) else {}
-        detail = {"name": t["name"], "cfg": {k: t["cfg"][k] for k in ("compress", "decode", "max")},
-                  "stream": t["cfg"]["stream"], "segs": t["segs"], "failed_at_event": v.pos,
-                  "segmentation": seg, "rule": why, "ref_codes": sorted(info[2]) if len(info) > 2 else [],
-                  "code_exc": info[3] if len(info) > 3 else None,
-                  "event": {k: bad_ev.get(k) for k in ("n", "seg", "msgs", "exc", "retained")}}
-        ctx.violation(v.clause, sig, detail, "trace")
+        else:
+            failing.append((t, v))
+    if failing:
+        # classify: the same executions with the known deviation rules in deviation mode
+        re_tr = []
+        for t, _v in failing:
+            t2 = dict(t)
+            t2["cfg"] = dict(t["cfg"], devs=list(DEVIATION_RULES))
+            re_tr.append(t2)
+        v2s, res2 = validate_batch("WsFramesTrace", "WsFramesTrace.cfg", re_tr, timeout=1500)
+        ctx.trace_states += res2.distinct
+        for (t, v), v2 in zip(failing, v2s):
+            info = v.info or []
+            if v2.ok:
+                used = sorted((v2.info or [[], []])[1] or [])
+                if used:
+                    for d in used:
+                        _report(ctx, t, "Accepted:" + d, d, info[0] if info else "?", v.pos, info, used)
+                    continue
+            vv = v2 if not v2.ok else v
+            info = vv.info or []
+            _report(ctx, t, vv.clause, info[1] if len(info) > 1 else "", info[0] if info else "?", vv.pos, info, [])
     t0 = traces[0]
     ctx.sample({"src": t0["src"], "name": t0["name"], "cfg": {k: t0["cfg"][k] for k in ("compress", "decode", "max")},
                 "stream_len": len(t0["cfg"]["stream"]), "runs": len(t0["segs"]),
@@ -251,7 +281,7 @@ def judge(ctx: Ctx, traces: List[dict], label: str) -> None:
 
 
 class Batcher:
-    def __init__(self, ctx: Ctx, label: str, max_events: int = 60000) -> None:
+    def __init__(self, ctx: Ctx, label: str, max_events: int = 40000) -> None:
         self.ctx, self.label, self.max_events = ctx, label, max_events
         self.buf: List[dict] = []
         self.n = 0
@@ -311,24 +341,26 @@ def model_runs(ctx: Ctx) -> None:
 
 # ------------------------------------------------------------------ drivers
 def configs_for(ctx: Ctx) -> List[dict]:
-    out = []
-    for mx in (0, 1, 16, 1024, DEFAULT_MAX):
-        for comp in (False, True):
-            out.append({"max": mx, "compress": comp, "decode": True})
-    out.append({"max": 16, "compress": False, "decode": False})
-    out.append({"max": 0, "compress": True, "decode": False})
-    return out
+    if ctx.quick:
+        combos = [(0, False, True), (1, True, True), (16, False, True), (16, True, True), (1024, True, True),
+                  (DEFAULT_MAX, False, True), (0, True, True), (16, False, False)]
+    else:
+        combos = [(mx, comp, True) for mx in (0, 1, 16, 1024, DEFAULT_MAX) for comp in (False, True)]
+        combos += [(16, False, False), (0, True, False), (1024, True, False)]
+    return [{"max": mx, "compress": comp, "decode": dec} for (mx, comp, dec) in combos]
 
 
 def seg_opts(ctx: Ctx, n: int) -> dict:
-    return {"pairs_upto": ctx.pick(14, 120), "all_cuts_upto": ctx.pick(72, 160), "bytewise_upto": ctx.pick(400, 1500),
+    return {"pairs_upto": ctx.pick(10, 120), "all_cuts_upto": ctx.pick(48, 160), "bytewise_upto": ctx.pick(260, 1500),
             "n_random": ctx.pick(2, 6)}
 
 
 def drive_injected(ctx: Ctx, loop: steploop.StepLoop) -> None:
+    """Valid frame sequences with every violation class injected at every frame position.
+    quick: per configuration every class once (the position rotates), every valid sequence;
+    thorough: every class at every position."""
     rng = ctx.rng
     b = Batcher(ctx, "injected")
-    classes_all: set = set()
     classes_done: set = set()
     ngroups = 0
     for ci, cfg in enumerate(configs_for(ctx)):
@@ -343,20 +375,21 @@ def drive_injected(ctx: Ctx, loop: steploop.StepLoop) -> None:
                         ("default-cap:too-big-fragments-declared",
                          G.frame(0, G.OP_BIN, bytes(300)) + G.frame(1, G.OP_CONT, b"x", declared=m - 299)),
                         ("default-cap:len64-2^31", G.frame(1, G.OP_BIN, b"ab", raw_len8=(2 ** 31).to_bytes(8, "big")))]
-        stride = ctx.pick(9, 1)
-        for si, (name, stream) in enumerate(streams):
-            klass = name.split(":")[-1]
-            classes_all.add((klass, cfg["compress"], cfg["max"] > 0))
-            if not name.startswith(("valid:", "default-cap:")) and (si + ci) % stride != 0 \
-                    and (klass, cfg["compress"], cfg["max"]) in classes_done:
-                continue
-            classes_done.add((klass, cfg["compress"], cfg["max"]))
-            segs = G.segmentations(rng, stream, **seg_opts(ctx, len(stream)))
-            b.add(run_group(loop, name, stream, cfg, segs, "grammar+defect"))
-            ngroups += 1
+        byclass: Dict[str, List[Tuple[str, bytes]]] = {}
+        for name, stream in streams:
+            byclass.setdefault(name.split(":")[-1] if not name.startswith("valid:") else name, []).append((name, stream))
+        for ki, (klass, lst) in enumerate(sorted(byclass.items())):
+            if ctx.quick and not klass.startswith("valid:"):
+                lst = [lst[(ki + 3 * ci) % len(lst)]]
+            for name, stream in lst:
+                classes_done.add(klass)
+                segs = G.segmentations(rng, stream, **seg_opts(ctx, len(stream)))
+                b.add(run_group(loop, name, stream, cfg, segs, "grammar+defect"))
+                ngroups += 1
     b.flush()
-    ctx.log(f"injected: {ngroups} groups; violation classes exercised: {len({c[0] for c in classes_done})}")
-    ctx.extra["violation_classes_exercised"] = sorted({c[0] for c in classes_done})
+    classes = sorted(c for c in classes_done if not c.startswith("valid:"))
+    ctx.log(f"injected: {ngroups} groups; violation classes exercised: {len(classes)}")
+    ctx.extra["violation_classes_exercised"] = classes
 
 
 def drive_random(ctx: Ctx, loop: steploop.StepLoop) -> None:
@@ -366,7 +399,7 @@ def drive_random(ctx: Ctx, loop: steploop.StepLoop) -> None:
     n = ctx.pick(500, 6000)
     for name, stream in G.random_streams(rng, n):
         cfg = rng.choice(cfgs)
-        segs = G.segmentations(rng, stream, pairs_upto=ctx.pick(0, 24), all_cuts_upto=64, bytewise_upto=300, n_random=1)
+        segs = G.segmentations(rng, stream, pairs_upto=ctx.pick(0, 24), all_cuts_upto=ctx.pick(40, 64), bytewise_upto=300, n_random=1)
         b.add(run_group(loop, name, stream, cfg, segs, "random"))
     b.flush()
 
@@ -379,10 +412,15 @@ def drive_large(ctx: Ctx, loop: steploop.StepLoop) -> None:
         for mask in (None, G.M1):
             payload = bytes((i * 7 + ln) & 0x7F for i in range(ln))
             stream = G.frame(1, G.OP_TEXT, payload, mask=mask) + G.frame(1, G.OP_PING, b"!")
-            for cfg in ({"max": 0, "compress": False, "decode": True}, {"max": ln, "compress": False, "decode": True},
-                        {"max": ln + 1, "compress": False, "decode": True}):
-                segs = G.segmentations(rng, stream, all_cuts_upto=0, bytewise_upto=200, n_random=2)
-                segs = segs[:1] + [s for s in segs[1:] if s[0].startswith("cut")][:16] + [s for s in segs if s[0].startswith("random")]
+            cfgs = [{"max": 0, "compress": False, "decode": True}, {"max": ln, "compress": False, "decode": True},
+                    {"max": ln + 1, "compress": False, "decode": True}]
+            if ln > 1000 and ctx.quick:
+                cfgs = cfgs[1:] if mask else cfgs[:1]
+            for cfg in cfgs:
+                segs = G.segmentations(rng, stream, all_cuts_upto=0, bytewise_upto=200, n_random=1)
+                cuts = [s for s in segs[1:] if s[0].startswith("cut")]
+                keep = cuts[:16] if ln < 1000 else cuts[:14:4]
+                segs = segs[:1] + keep + [s for s in segs if s[0].startswith(("random", "bytewise"))]
                 b.add(run_group(loop, f"large:len{ln}", stream, cfg, segs, "boundary"))
     # a frame dribbled in more reads than max_fragments: reading must be paused (refinement)
     stream = G.frame(1, G.OP_BIN, bytes(1100)) + G.frame(1, G.OP_TEXT, b"after")
